@@ -221,7 +221,9 @@ def load_known():
 
 def classify(pid, failures, known):
     """failures: {key: [witness…]}.  Returns (known_hits, new)."""
-    open_keys = [(k["key"], k) for k in known if k.get("property") == pid and k.get("status", "open") == "open"]
+    # a finding is identified by one key pattern (`key`) or by an explicit list of them (`keys`)
+    open_keys = [(pat, k) for k in known if k.get("property") == pid and k.get("status", "open") == "open"
+                 for pat in (k.get("keys") or [k["key"]])]
     hits, new = {}, {}
     for key, wit in failures.items():
         for pat, k in open_keys:
@@ -323,7 +325,7 @@ def run_check(pid, tier, seed, replay=None):
                 json.dump({"property": pid, "witness": k["replay"]["witness"], "finding_key": k["replay"].get("key")}, f)
             r = run_harness(k["replay"]["stream"], "quick", seed, os.path.join(rundir, "known_" + k["id"]),
                             ["--replay", rp] + list(cfg.get("stream_args", {}).get(k["replay"]["stream"], [])))
-            still = [key for key in r.get("failures", {}) if key == k["key"] or fnmatch.fnmatchcase(key, k["key"])]
+            still = [key for key in r.get("failures", {}) if any(key == pat or fnmatch.fnmatchcase(key, pat) for pat in (k.get("keys") or [k["key"]]))]
             if still:
                 hits.setdefault(k["id"], {"finding": k, "keys": []})["keys"].extend(still)
             elif k["id"] not in hits:
